@@ -7,6 +7,7 @@ import Mmmbbb.Model.Tx
 import Mmmbbb.Model.Pure
 import Mmmbbb.Model.Api
 import Mmmbbb.Model.Ordered
+import Mmmbbb.Model.Fragment
 open Mmmbbb Mmmbbb.Codec
 
 abbrev Fields := List (String × String)
@@ -257,6 +258,9 @@ structure DState where
   ordChecked  : Nat := 0
   ordExcluded : Nat := 0
   ordStamps   : Nat := 0
+  /-- steps inside / outside the fragment of `C05_fragment` (`fragOk`, evaluated in the state before the step) -/
+  fragIn  : Nat := 0
+  fragOut : Nat := 0
 
 /-- the refinement obligation of one store step -/
 def ordCheck (ds : DState) (st' : St) (excluded : Bool) : DState × Option String :=
@@ -275,7 +279,7 @@ def handle (ds : DState) (line : String) : DState × String :=
   | op :: rest =>
     let fs := parseFields rest
     if op == "reset" then ({ lineNo := ds.lineNo }, "ok")
-    else if op == "ordstats" then (ds, s!"R checked={ds.ordChecked} excluded={ds.ordExcluded} stamps={ds.ordStamps}")
+    else if op == "ordstats" then (ds, s!"R checked={ds.ordChecked} excluded={ds.ordExcluded} stamps={ds.ordStamps} fragin={ds.fragIn} fragout={ds.fragOut}")
     else if op == "dump" then
       let mine := dump ds.st.db
       match rest with
@@ -311,6 +315,7 @@ def handle (ds : DState) (line : String) : DState × String :=
             let ds := { ds with st := { ds.st with now := t } }
             let (db', resp) := Api.handle ds.st.db ds.st.now r
             let (ds, _) := ordCheck ds { ds.st with db := db' } true
+            let ds := { ds with fragOut := ds.fragOut + 1 }
             let ds' := { ds with st := { ds.st with db := db' } }
             let exp := (fget fs "exp").getD ""
             let body := ((fget fs "body").bind dec).getD ""
@@ -334,6 +339,7 @@ def handle (ds : DState) (line : String) : DState × String :=
           if t != ds.st.now then (ds, s!"MISMATCH kind=time model={ds.st.now} impl={t}")
           else
             let (st', out) := step ds.st o
+            let ds := if decide (fragOk ds.st o) then { ds with fragIn := ds.fragIn + 1 } else { ds with fragOut := ds.fragOut + 1 }
             let (ds, ordBad) := ordCheck ds st' (op == "seek_time" || op == "seek_snap")
             let ds' := { ds with st := st' }
             let exp := (fget fs "exp").getD ""
